@@ -252,13 +252,17 @@ def _run_methods(case, which, y, s, a, labels, idx, out):
     col2 = [float((i + yy) % 2) for i, yy in enumerate(y)]
     X = np.array([s, col1, col2], float).T
     scores_of = {"decision_function": list(s), "predict_proba": col1, "predict": col2}
-    est = MultiScore().fit(None, None)
     outcome = []
-    for method in ("decision_function", "predict_proba", "predict"):
+    # the hard 0/1 labels of `predict` are also returned as bool / int8 / float16 arrays (exactly representable, so the
+    # oracles are unchanged): the probabilities must not inherit a narrow dtype from the scores (seeded change C04d)
+    for method, pdt in (("decision_function", None), ("predict_proba", None), ("predict", None), ("predict", "bool"), ("predict", "int8"), ("predict", "float16")):
+        est = MultiScore(predict_dtype=pdt).fit(None, None)
         sc = scores_of[method]
+        if pdt:
+            out["classes"].add("narrow_dtype_scores")
         for c, obj, flip, gs in configs_for(case):
             out["evals"] += 1
-            ctx = "predict_method=%s constraints=%s objective=%s flip=%s grid_size=%d y=%r scores=%r groups=%r" % (method, c, obj, flip, gs, y, sc, a)
+            ctx = "predict_method=%s%s constraints=%s objective=%s flip=%s grid_size=%d y=%r scores=%r groups=%r" % (method, " (dtype %s)" % pdt if pdt else "", c, obj, flip, gs, y, sc, a)
             try:
                 t_ = ThresholdOptimizer(estimator=est, constraints=c, objective=obj, prefit=True, predict_method=method, grid_size=gs, flip=flip).fit(X, y, sensitive_features=a)
                 p = [float(v) for v in t_._pmf_predict(X, sensitive_features=a)[:, 1]]
